@@ -369,10 +369,10 @@ theorem aliasLike_overlap : ∃ cid cid' : Bytes, cid.length = 32 ∧ cid'.lengt
     (110 :: cid ++ [0]) <+: (Key.alias cid').enc := Container.aliasLike_overlap
 
 theorem prefixes_are_literals :
-    byteOf Generated.container_containerKeyPrefix = 120 ∧ byteOf Generated.container_ownerKeyPrefix = 111 ∧
-    byteOf Generated.container_deletedKeyPrefix = 100 ∧ byteOf Generated.container_containersWithMetaPrefix = 109 ∧
-    byteOf Generated.container_nodesPrefix = 110 ∧ byteOf Generated.container_replicasNumberPrefix = 114 ∧
-    byteOf Generated.container_nextEpochNodesPrefix = 117 ∧
+    (Generated.container_containerKeyPrefix_bytes.headD 0) = 120 ∧ (Generated.container_ownerKeyPrefix_bytes.headD 0) = 111 ∧
+    (Generated.container_deletedKeyPrefix_bytes.headD 0) = 100 ∧ (Generated.container_containersWithMetaPrefix_bytes.headD 0) = 109 ∧
+    (Generated.container_nodesPrefix_bytes.headD 0) = 110 ∧ (Generated.container_replicasNumberPrefix_bytes.headD 0) = 114 ∧
+    (Generated.container_nextEpochNodesPrefix_bytes.headD 0) = 117 ∧
     Generated.container_eACLPrefix = [101, 65, 67, 76] ∧
     Generated.container_nnsHasAliasKey_bytes = [110, 110, 115, 72, 97, 115, 65, 108, 105, 97, 115] ∧
     Generated.container_singleEstimatePrefix_bytes = [101, 115, 116] ∧
